@@ -1170,7 +1170,7 @@ func freshResultRule(R string) RuleFunc {
 func unnamedOnlyRule(R string) RuleFunc {
 	return func(c *core.Ctx) {
 		c.Rule(R, "loader.AddUnnamedTypes moves into the root only the types whose generated name starts with `#` (the rule-sets and shortcuts of a registered type): every name it passes to rootSchema.AddType comes from a work list that is filled under a test of the first character against '#' (or the AddType call itself is under that test). Copying the named types as well makes the root resolve names that were never registered on it and replaces root types of the same name - Check() then depends on what was registered on OTHER schema objects")
-		c.Floor(R, 1)
+		c.Floor(R, 2)
 		const fn = "notations/jschema/loader.AddUnnamedTypes"
 		d := c.P.FindDecl(fn)
 		if d == nil {
@@ -1224,6 +1224,30 @@ func unnamedOnlyRule(R string) RuleFunc {
 			}
 			return true
 		})
+		// the allOf compiler collects the types of an inherited type the same way
+		if ed := c.P.FindDecl("(*notations/jschema/loader.allOfConstraintCompiler).extendWith"); ed == nil {
+			c.Unresolved(R, "(*notations/jschema/loader.allOfConstraintCompiler).extendWith")
+		} else {
+			var st2 []ast.Node
+			n2, ok2 := 0, true
+			ast.Inspect(ed.Decl.Body, func(n ast.Node) bool {
+				if n == nil {
+					st2 = st2[:len(st2)-1]
+					return true
+				}
+				st2 = append(st2, n)
+				if as, isA := n.(*ast.AssignStmt); isA && len(as.Lhs) == 1 {
+					if ix, isIx := as.Lhs[0].(*ast.IndexExpr); isIx && strings.HasSuffix(core.ExprStr(ix.X), ".foundTypes") {
+						n2++
+						if !hashTest(st2) {
+							ok2 = false
+						}
+					}
+				}
+				return true
+			})
+			c.Check(ok2 && n2 > 0, R, "extendWith:foundTypes", c.P.Pos(ed.Decl.Pos()), "extendWith collects the types of the inherited type under a test of the name against '#'", "the named types of an inherited type are copied into the root as well (they replace the root's own types of the same name)")
+		}
 		if len(adds) == 0 {
 			c.Bad(R, fn+":AddType", c.P.Pos(d.Decl.Pos()), "AddUnnamedTypes adds types to the root", "no AddType call found")
 			return
